@@ -77,9 +77,48 @@ func (in *Interp) chanClose(c *Chan) {
 	c.closed = true
 }
 
+// selectOp without an active scheduler: only cases that are ready now can fire.
 func (in *Interp) selectOp(fr *frame, instr *ssa.Select) Value {
-	in.abort("unsupported: select (scheduler not active)")
-	return nil
+	var ready []int
+	for i, st := range instr.States {
+		ch, _ := fr.get(st.Chan).(*Chan)
+		if ch == nil {
+			continue
+		}
+		if st.Dir == types.RecvOnly {
+			if len(ch.buf) > 0 || ch.closed {
+				ready = append(ready, i)
+			}
+		} else {
+			if ch.closed || len(ch.buf) < ch.cap {
+				ready = append(ready, i)
+			}
+		}
+	}
+	chosen := -1
+	if len(ready) > 0 {
+		chosen = ready[in.choose(len(ready), "select")]
+	} else if instr.Blocking {
+		in.abort("unsupported: blocking select with no ready case (scheduler not active)")
+	}
+	r := Tuple{mkInt(int64(chosen)), tFalse}
+	for i, st := range instr.States {
+		if st.Dir != types.RecvOnly {
+			if i == chosen {
+				in.chanSend(fr.get(st.Chan).(*Chan), fr.get(st.Send))
+			}
+			continue
+		}
+		elem := underlying(st.Chan.Type()).(*types.Chan).Elem()
+		if i == chosen {
+			v := in.chanRecv(fr.get(st.Chan).(*Chan), true, elem).(Tuple)
+			r[1] = v[1]
+			r = append(r, v[0])
+		} else {
+			r = append(r, zero(elem))
+		}
+	}
+	return r
 }
 
 func (in *Interp) goStmt(fr *frame, instr *ssa.Go, fn Value, args []Value) {
